@@ -277,8 +277,17 @@ Definition unlink_if_there (p : list bytes) (s : fnode) : fres fnode :=
   | r => r
   end.
 
-(* SetSymlinkPermissions: lchown and xattrs only; no chmod, no times *)
+(* SetSymlinkPermissions: lchown and xattrs only, no chmod; then the link's own times
+   (utimensat with AT_SYMLINK_NOFOLLOW) unless the mtime is the epoch *)
 Definition create_symlink (pr : proc) (o : lopts) (p : list bytes) (m : meta) (xs : list (bytes * bytes)) (target : bytes) (s : fnode) : fres fnode :=
+  dof s0 <- unlink_if_there p s;
+  dof s1 <- symlink pr target p s0;
+  dof s2 <- (if no_same_owner o then FOk s1
+             else dof s2 <- chown p (m_uid m) (m_gid m) s1; set_all_xattrs p xs s2);
+  set_times p m s2.
+
+(* before "fix: untar restores the modification time of symlinks": no times at all *)
+Definition create_symlink_prefix (pr : proc) (o : lopts) (p : list bytes) (m : meta) (xs : list (bytes * bytes)) (target : bytes) (s : fnode) : fres fnode :=
   dof s0 <- unlink_if_there p s;
   dof s1 <- symlink pr target p s0;
   if no_same_owner o then FOk s1
@@ -303,6 +312,19 @@ Fixpoint untar (pr : proc) (o : lopts) (ns : list node) (s : fnode) : fres fnode
   match ns with
   | [] => FOk s
   | n :: r => dof s1 <- untar_node pr o n s; untar pr o r s1
+  end.
+
+(* the writer as it was before the symlink-time fix (for the refuted example only) *)
+Definition untar_node_prefix (pr : proc) (o : lopts) (n : node) (s : fnode) : fres fnode :=
+  match n with
+  | NSymlink p m xs target => create_symlink_prefix pr o p m xs target s
+  | _ => untar_node pr o n s
+  end.
+
+Fixpoint untar_prefix (pr : proc) (o : lopts) (ns : list node) (s : fnode) : fres fnode :=
+  match ns with
+  | [] => FOk s
+  | n :: r => dof s1 <- untar_node_prefix pr o n s; untar_prefix pr o r s1
   end.
 
 (* ---------- what this leaves behind, by recursion on the source tree ---------- *)
@@ -335,8 +357,8 @@ Fixpoint expect (pr : proc) (o : lopts) (t : tree) : option fnode :=
       Some (FFile (mkFMeta (exp_perm pr o a 438) u g (exp_time a) (exp_xattrs o a)) d)
   | TLink a tg =>
       let (u, g) := exp_owner pr o a in
-      (* neither chmod nor utimes is applied to a symlink *)
-      Some (FLink (mkFMeta 511 u g Now (exp_xattrs o a)) tg)
+      (* no chmod for a symlink; its own time is set last *)
+      Some (FLink (mkFMeta 511 u g (exp_time a) (exp_xattrs o a)) tg)
   | TDev a r =>
       let (u, g) := exp_owner pr o a in
       (* mknod(mode|0666) keeps the set-id bits of the source, the chown that follows clears them;
